@@ -99,7 +99,7 @@ def lifted_args(prog, slicer, call, crate=None, depth=3, stop_at=()):
         has_param = any(x[0] == 'param' and x[1] == f.path for v in vals for x in walk(v))
         css = [cs for cs in callers.get(f.path, []) if not cs.indirect and cs.name == f.path and cs.fn.path != f.path
                and (crate is None or cs.fn.crate == crate)]
-        if not has_param or not css or d >= depth or f.vis == 'public' or f.path in stop_at:
+        if not has_param or not css or d >= depth or f.vis == 'pub' or f.path in stop_at:
             return [(f, site, vals)]
         out = []
         for cs in css:
